@@ -28,6 +28,18 @@ def run(chk):
 
 
 def replay(chk, path):
+    import json
+    rep = json.load(open(path))
+    if "script" in rep and "pool" in rep:          # a pooled_inner_scenarios case: re-run it on the current tree
+        bad = _pooled_check(rep["operator"], rep["pool"], rep["script"])
+        if bad:
+            print(json.dumps({"operator": rep["operator"], "pool": rep["pool"], "script": rep["script"],
+                              "mismatch": bad[0], "what": bad[1], "got": bad[2], "expected": bad[3]},
+                             indent=1, default=repr))
+            print(f"VIOLATION property=C12 replay={path}")
+            return 1
+        print(f"[C12] replay {path}: implementation agrees with the reference semantics on this case")
+        return 0
     print(open(path).read())
     return 1
 
@@ -127,6 +139,365 @@ def reentrant_scenarios(chk):
     return nontrivial, hist
 
 
+# ---- oracle-only scenarios: the projection picks the inner from a small POOL reused across outer elements ----
+# pool member: {"kind": "cold", "prefix": [...], "end": "C" | "E" | "open"}   or   {"kind": "hot"}
+#   cold: an Observable over a logging subscribe function; EVERY subscription gets the prefix synchronously,
+#         then completes ("C"), errors ("E") or stays open; an open subscription receives what the script
+#         pushes to the member later (push / complete / error act on the member's live subscriptions only,
+#         a later subscription starts afresh)
+#   hot:  a Subject (logging its subscribe / unsubscribe); its termination is remembered (subscribing a
+#         terminated Subject terminates at once)
+# script step: ["outer", j] (outer emits j -> pool[j]) | ["push", m, v] | ["complete", m] | ["error", m] |
+#              ["outer_complete"] | ["outer_error"] | ["dispose"]
+_POOL_VALUES = [0, None, "", False, 1, 2, 3, "a", "b"]
+_POOLED_OPS = ["switch_map", "switch_map_indexed", "flat_map_latest", "map+switch_latest"]
+
+
+def _pooled_gen(rng):
+    op = rng.choice(_POOLED_OPS)
+    npool = rng.choice([2, 2, 3])
+    pool = []
+    for _ in range(npool):
+        if rng.random() < 0.65:
+            pool.append({"kind": "cold",
+                         "prefix": [rng.choice(_POOL_VALUES) for _ in range(rng.choice([0, 1, 1, 2, 3]))],
+                         "end": rng.choice(["C", "C", "C", "open", "open", "open", "E"])})
+        else:
+            pool.append({"kind": "hot"})
+    n = rng.randint(3, 12)
+    script = [["outer", rng.randrange(npool)]]
+    last = script[0][1]
+    outer_over = False
+    while len(script) < n:
+        late = len(script) >= n // 2
+        r = rng.random()
+        m = last if rng.random() < 0.5 else rng.randrange(npool)
+        if outer_over and rng.random() < 0.75:       # after the outer's end: mostly member events,
+            r = 0.45 + rng.random() * 0.41           # completion of the latest inner first of all
+            if rng.random() < 0.4:
+                r, m = 0.75, last
+        if r < 0.45:
+            j = last if rng.random() < 0.3 else rng.randrange(npool)
+            script.append(["outer", j])
+            last = j
+        elif r < 0.68:
+            script.append(["push", m, rng.choice(_POOL_VALUES)])
+        elif r < 0.79:
+            script.append(["complete", m])
+        elif r < 0.86:
+            if rng.random() < 0.6:                   # rather a stale member than the latest one
+                m = rng.choice([x for x in range(npool) if x != last])
+            script.append(["error", m])
+        elif not late:
+            script.append(["push", m, rng.choice(_POOL_VALUES)])
+        elif r < 0.94:
+            script.append(["outer_complete"])
+            outer_over = True
+        elif r < 0.97:
+            script.append(["outer_error"])
+            outer_over = True
+        else:
+            script.append(["dispose"])
+    return op, pool, script
+
+
+def _pooled_run_impl(op, pool, script):
+    """Drive the real operator; returns (notifications [(step, kind, payload)], log [(step, 'sub'|'unsub', member)],
+    still-subscribed description at the end)."""
+    import reactivex as rx
+    from reactivex import operators as ops
+    from reactivex.disposable import Disposable
+    from reactivex.subject import Subject
+    step = [-1]
+    log, notes = [], []
+    live = [0] * len(pool)
+
+    def logged(m, inner_dispose):
+        log.append((step[0], "sub", m))
+        live[m] += 1
+
+        def dispose():
+            log.append((step[0], "unsub", m))
+            live[m] -= 1
+            inner_dispose()
+        return Disposable(dispose)         # Disposable runs its action once
+
+    class LoggedSubject(Subject):
+        def __init__(self, m):
+            super().__init__()
+            self.m = m
+
+        def _subscribe_core(self, observer, scheduler=None):
+            holder = []
+            d = logged(self.m, lambda: holder[0].dispose())
+            holder.append(super()._subscribe_core(observer, scheduler))
+            return d
+
+    class Cold:
+        def __init__(self, m, spec):
+            self.m, self.spec, self.subs = m, spec, []
+            self.observable = rx.Observable(self.subscribe)
+
+        def subscribe(self, observer, scheduler=None):
+            rec = [observer]
+            d = logged(self.m, lambda: self.subs.remove(rec) if rec in self.subs else None)
+            self.subs.append(rec)
+            for v in self.spec["prefix"]:
+                observer.on_next(v)
+            if self.spec["end"] == "C":
+                observer.on_completed()
+            elif self.spec["end"] == "E":
+                observer.on_error(Exception(f"member{self.m}"))
+            return d
+
+        def on_next(self, v):
+            for rec in list(self.subs):
+                rec[0].on_next(v)
+
+        def on_completed(self):
+            for rec in list(self.subs):
+                rec[0].on_completed()
+
+        def on_error(self, e):
+            for rec in list(self.subs):
+                rec[0].on_error(e)
+
+    members = [LoggedSubject(m) if s["kind"] == "hot" else Cold(m, s) for m, s in enumerate(pool)]
+    inner = [x if isinstance(x, Subject) else x.observable for x in members]
+    outer = Subject()
+    if op == "switch_map":
+        o = outer.pipe(ops.switch_map(lambda j: inner[j]))
+    elif op == "switch_map_indexed":
+        o = outer.pipe(ops.switch_map_indexed(lambda j, _i: inner[j]))
+    elif op == "flat_map_latest":
+        o = outer.pipe(ops.flat_map_latest(lambda j: inner[j]))
+    elif op == "map+switch_latest":
+        o = outer.pipe(ops.map(lambda j: inner[j]), ops.switch_latest())
+    else:
+        raise AssertionError(op)
+    sub = o.subscribe(lambda v: notes.append((step[0], "N", v)),
+                      lambda e: notes.append((step[0], "E", str(e))),
+                      lambda: notes.append((step[0], "C", None)))
+    for k, st in enumerate(script):
+        step[0] = k
+        try:
+            if st[0] == "outer":
+                outer.on_next(st[1])
+            elif st[0] == "push":
+                members[st[1]].on_next(st[2])
+            elif st[0] == "complete":
+                members[st[1]].on_completed()
+            elif st[0] == "error":
+                members[st[1]].on_error(Exception(f"member{st[1]}"))
+            elif st[0] == "outer_complete":
+                outer.on_completed()
+            elif st[0] == "outer_error":
+                outer.on_error(Exception("outer"))
+            elif st[0] == "dispose":
+                sub.dispose()
+            else:
+                raise AssertionError(st)
+        except AssertionError:
+            raise
+        except Exception as e:                      # the script's calls never raise on a correct tree
+            notes.append((k, "RAISED", repr(e)))
+    held = [f"member {m} x{c}" for m, c in enumerate(live) if c] + (["outer"] if outer.observers else [])
+    return notes, log, held
+
+
+def _pooled_reference(pool, script):
+    """The property text, executed: returns (notifications, log, finished?, facts about the case)."""
+    notes, log = [], []
+    hot_state = {m: "open" for m, s in enumerate(pool) if s["kind"] == "hot"}
+    cur = None                  # subscription to the most recently received inner: {"m": member, "live": bool}
+    outer_done = False
+    finished = False            # the subscriber got its terminal notification or disposed
+    arrived = []                # members in arrival order
+    cold_completed = set()      # cold members one of whose subscriptions completed
+    facts = set()
+    for k, st in enumerate(script):
+        def end_cur():
+            if cur is not None and cur["live"]:
+                cur["live"] = False
+                log.append((k, "unsub", cur["m"]))
+        is_cur = cur is not None and cur["live"] and len(st) > 1 and st[0] != "outer" and cur["m"] == st[1]
+        was_inner = len(st) > 1 and st[0] != "outer" and st[1] in arrived
+        terminal = None
+        if st[0] in ("complete", "error") and st[1] in hot_state and hot_state[st[1]] == "open":
+            hot_state[st[1]] = "C" if st[0] == "complete" else "E"      # a Subject remembers, whoever listens
+            is_open = True
+        elif st[0] in ("push", "complete", "error"):
+            is_open = hot_state.get(st[1], "open") == "open"           # a terminated Subject stays silent
+        if finished:
+            continue
+        if st[0] == "outer":
+            if outer_done:
+                continue                                            # the outer sequence is over
+            m = st[1]
+            if arrived:
+                facts.add("consecutive_repeat" if arrived[-1] == m else
+                          "nonconsecutive_repeat" if m in arrived else "switch_to_new_member")
+                if m in cold_completed:
+                    facts.add("repeat_of_completed_cold")
+            # a new inner arrived (possibly the same object again): the previous subscription ends NOW ...
+            end_cur()
+            # ... and the new inner is subscribed and is the only one listened to from here on
+            cur = {"m": m, "live": True}
+            arrived.append(m)
+            log.append((k, "sub", m))
+            spec = pool[m]
+            if spec["kind"] == "cold":
+                for v in spec["prefix"]:
+                    notes.append((k, "N", v))
+                ending = spec["end"]
+            else:
+                ending = hot_state[m]
+            if ending == "C":
+                end_cur()                                           # outer not done: no completion yet
+                if spec["kind"] == "cold":
+                    cold_completed.add(m)
+            elif ending == "E":
+                facts.add("current_inner_error")
+                terminal = ("E", f"member{m}")
+        elif st[0] == "push":
+            if is_cur and is_open:
+                notes.append((k, "N", st[2]))
+            elif was_inner and is_open:
+                facts.add("stale_element")
+        elif st[0] == "complete":
+            if is_cur and is_open:
+                end_cur()
+                if pool[st[1]]["kind"] == "cold":
+                    cold_completed.add(st[1])
+                if outer_done:
+                    facts.add("outer_completed_before_inner")
+                    terminal = ("C", None)
+            elif was_inner and is_open:
+                facts.add("stale_completion")
+        elif st[0] == "error":
+            if is_cur and is_open:
+                facts.add("current_inner_error")
+                terminal = ("E", f"member{st[1]}")
+            elif was_inner and is_open:
+                facts.add("stale_error")
+        elif st[0] == "outer_complete":
+            if not outer_done:
+                outer_done = True
+                if cur is None or not cur["live"]:
+                    facts.add("outer_completed_after_inner" if cur is not None else "outer_completed_no_inner")
+                    terminal = ("C", None)
+        elif st[0] == "outer_error":
+            if not outer_done:
+                outer_done = True
+                facts.add("outer_error")
+                terminal = ("E", "outer")
+        elif st[0] == "dispose":
+            facts.add("disposed")
+            end_cur()
+            finished = True
+        else:
+            raise AssertionError(st)
+        if terminal is not None:
+            notes.append((k,) + terminal)
+            end_cur()
+            finished = True
+    if any(f in facts for f in ("consecutive_repeat", "nonconsecutive_repeat")):
+        facts.add("repeated_inner")
+    return notes, log, finished, facts
+
+
+def _pooled_check(op, pool, script):
+    """None if the implementation agrees with the reference, else (kind, text, got, expected)."""
+    e_notes, e_log, e_finished, _ = _pooled_reference(pool, script)
+    status, res = lib.with_timeout(10, _pooled_run_impl, op, pool, script)
+    exp = {"notifications (step, kind, payload)": [list(x) for x in e_notes],
+           "subscriptions (step, what, member)": [list(x) for x in sorted(e_log)]}
+    if status != "ok":
+        return ("timeout", "the script did not finish in 10 s", None, exp)
+    notes, log, held = res
+    got = {"notifications (step, kind, payload)": [list(x) for x in notes],
+           "subscriptions (step, what, member)": [list(x) for x in sorted(log)],
+           "still subscribed at the end": held}
+    # repr: 0 / False / 0.0 are different elements.  Instant order among the subscribe / unsubscribe events of ONE
+    # script step is left open by the statement, so the logs are compared as per-step multisets (sorted).
+    if repr(notes) != repr(e_notes):
+        i = next((i for i, (a, b) in enumerate(zip(notes, e_notes)) if repr(a) != repr(b)), min(len(notes), len(e_notes)))
+        return ("notifications", f"subscriber's notification #{i}: got {notes[i] if i < len(notes) else 'nothing'}, "
+                f"expected {e_notes[i] if i < len(e_notes) else 'nothing'}", got, exp)
+    if sorted(log) != sorted(e_log):
+        return ("subscriptions", f"subscribe/unsubscribe log differs: got {sorted(log)}, expected {sorted(e_log)}",
+                got, exp)
+    if e_finished and held:
+        return ("leak", f"still subscribed after the subscriber's end: {held}", got, exp)
+    return None
+
+
+def _pooled_shrink(op, pool, script, kind):
+    """Greedy: drop script steps / prefix elements while the same kind of mismatch remains."""
+    import copy
+    pool, script = copy.deepcopy(pool), list(script)
+    again = True
+    while again:
+        again = False
+        for i in range(len(script)):
+            cand = script[:i] + script[i + 1:]
+            bad = _pooled_check(op, pool, cand)
+            if bad and bad[0] == kind:
+                script, again = cand, True
+                break
+        else:
+            for m, s in enumerate(pool):
+                for i in range(len(s.get("prefix", []))):
+                    cand = copy.deepcopy(pool)
+                    del cand[m]["prefix"][i]
+                    bad = _pooled_check(op, cand, script)
+                    if bad and bad[0] == kind:
+                        pool, again = cand, True
+                        break
+                if again:
+                    break
+    return pool, script
+
+
+def pooled_inner_scenarios(chk):
+    n = 240 if chk.tier == "quick" else 5000
+    hist, fact_hist = {}, {}
+    nontrivial = set()
+    shrunk, worst = {}, {}
+    for _ in range(n):
+        op, pool, script = _pooled_gen(chk.rng)
+        chk.cov["evaluations"] += 1
+        e_notes, _, _, facts = _pooled_reference(pool, script)
+        key = f"{op}/" + "+".join(s["kind"] + (":" + s["end"] if s["kind"] == "cold" else "") for s in pool)
+        hist[key] = hist.get(key, 0) + 1
+        for f in facts:
+            fact_hist[f] = fact_hist.get(f, 0) + 1
+        bad = _pooled_check(op, pool, script)
+        if bad:
+            sig = f"C12|pooled|{op}|{bad[0]}"
+            if shrunk.get(sig, 0) < 3:                 # minimise the first few per signature, keep the smallest
+                shrunk[sig] = shrunk.get(sig, 0) + 1
+                pool, script = _pooled_shrink(op, pool, script, bad[0])
+                bad = _pooled_check(op, pool, script)
+                facts = _pooled_reference(pool, script)[3]
+            if sig in worst and worst[sig][2] <= len(script):
+                continue
+            worst[sig] = (sig,
+                          {"family": "pooled_inner_scenarios", "operator": op, "pool": pool, "script": script,
+                           "mismatch": bad[0], "what": bad[1], "got": bad[2], "expected": bad[3],
+                           "facts": sorted(facts),
+                           "legend": "pool[j] is the inner the projection returns for outer element j (same object "
+                                     "every time); cold: every subscription gets the prefix synchronously, then C / E / "
+                                     "stays open for the script's push|complete|error; hot: a Subject.  Steps are "
+                                     "numbered from 0; 'expected' is the property text executed directly"},
+                          len(script))
+        elif len(e_notes) >= 2 and "repeated_inner" in facts:
+            nontrivial.add(repr((op, pool, script)))
+    for sig, rep, size in worst.values():              # the smallest failing case per signature
+        chk.violation(sig, rep, size=size)
+    return nontrivial, hist, fact_hist
+
+
 _run_machines = run
 
 
@@ -145,5 +516,17 @@ def run(chk):
     chk.cov["input_distribution"]["reentrant_scenarios"] = hist
     chk.cov["rule"] += ("; plus oracle-only scenarios: inner sequences that emit inside subscribe() (BehaviorSubject) "
                         "whose first element makes the outer emit the next inner re-entrantly")
+    nt, hist, fact_hist = pooled_inner_scenarios(chk)
+    chk.cov["distinct_nontrivial"] += len(nt)
+    chk.cov["input_distribution"]["pooled_inner_scenarios"] = hist
+    chk.cov["pooled_inner_scenarios"] = {"cases": sum(hist.values()), "distinct_nontrivial": len(nt),
+                                         "cases_with": dict(sorted(fact_hist.items()))}
+    chk.cov["rule"] += ("; plus oracle-only scenarios (pooled_inner_scenarios): the projection returns members of a "
+                        "reused pool of 2-3 inner observables (logged cold sources replaying a prefix incl. falsy "
+                        "values on every subscription and then completing / erroring / staying open, and hot Subjects), "
+                        "so the same inner object arrives repeatedly, consecutively or not; seeded scripts of outer "
+                        "emissions, member push/complete/error, outer completion/error and dispose; notifications "
+                        "(with the script step) and the subscribe/unsubscribe log are compared with the property text "
+                        "executed directly; non-trivial = oracle holds, >= 2 notifications, at least one repeated inner")
     a, kw = holder["args"]
     return chk.finish(*a, **kw)
